@@ -486,6 +486,31 @@ func render(repo string, loops []loop, self []selfResult) string {
 	}
 	sb.WriteString("\nDefinition DEAF := Eval vm_compute in (deaf loops).\nPrint DEAF.\n")
 	sb.WriteString("Definition OFFENDERS := Eval vm_compute in (offenders loops).\nPrint OFFENDERS.\n\n")
+	// loops that have no shutdown case and no case that leaves them: by the generic lemma they never
+	// exit, so "the relay's services stop" is refuted for the current source (finding F21)
+	var parked []int
+	for i, l := range loops {
+		listens, leaves := false, false
+		for _, c := range l.Cases {
+			if isShutdownChan(c.Chan) {
+				listens = true
+			}
+			if c.Term == "Return" || c.Term == "BreakLabel" {
+				leaves = true
+			}
+		}
+		if !listens && !leaves {
+			parked = append(parked, i)
+		}
+	}
+	if len(parked) > 0 {
+		sb.WriteString("(* FULL CLAUSE 'on shutdown request the relay's services stop' = every service loop exits after close(closed).\n")
+		sb.WriteString("   Refuted for the current source: these loops have no shutdown case and no case that leaves them. *)\n")
+		for _, i := range parked {
+			sb.WriteString(fmt.Sprintf("Example never_stops_%d : forall sched, run (nth %d loops (mkloop \"\" false false [])) sched = Running.\nProof. apply never_exits. vm_compute. reflexivity. Qed.\n", i, i))
+		}
+		sb.WriteString(fmt.Sprintf("Example services_stop_refuted : exists l, In l loops /\\ listens l = false /\\ forall sched, run l sched = Running.\nProof. exists (nth %d loops (mkloop \"\" false false [])). split; [vm_compute; tauto|]. split; [vm_compute; reflexivity|exact never_stops_%d]. Qed.\n\n", parked[0], parked[0]))
+	}
 	sb.WriteString("Example loops_ok : stops_on_close loops = true.\nProof. vm_compute. reflexivity. Qed.\n\n")
 	sb.WriteString("(* hence, by the generic theorem, for the loops of the current source: *)\n")
 	sb.WriteString("Lemma current_loops_stop :\n  forall l, In l loops -> forall i c, nth_error (cases l) i = Some c -> is_shutdown c = true ->\n  forall sched, In i sched -> run l sched = Exited.\nProof. exact (loops_stop loops loops_ok). Qed.\n")
